@@ -9,7 +9,7 @@ RULE = ('(A) exhaustive quarter-LSB sweep of every format with n_word<=3 (quick)
         'values up to 3x the range on both sides; (C) period pairs v and v+k*2^(n_word-n_frac) (floor/ceil/around always; trunc/fix when integral or same side of zero); '
         '(D) n_word 64..256 with Python integers of up to 4x the word length, raw and value mode, compared with Spec.wrap_res and with the model object path; '
         '(E) register arithmetic: results of + - * stored with wrap into a fixed format, chains of up to 6 operations, widths 2..100; (F) values held by 64..128-bit objects copied into core words; '
-        '(G) + - * on operands of at most 52 bits stored through out= / op_out into wrap registers of 64..128 bits with any fraction length 0..n_word. '
+        '(G) + - * on operands of at most 52 bits stored through out= / op_out into wrap registers of 64..128 bits with any fraction length 0..n_word and into narrow registers (8..40 bits), operands being scalars, array elements or arrays. '
         'Non-trivial = the rounded input is outside the range (a wrap actually happens); distinct by full input.')
 ASSUMPTIONS = ['the period law is enforced in the forms that are consequences of the congruence (see DESIGN.md C03 interpretation decision)']
 
@@ -193,11 +193,12 @@ def outreg_cases(rng, n):
         def f():
             nw = rng.choice([8, 16, 24, 31, 32, 40, 48, rng.randint(2, 52)]); return [rng.random() < 0.6, nw, rng.choice([0, 0, 1, nw // 2, nw])]
         fxm, fym = f(), f()
-        nwo = rng.choice([64, 65, 72, 100, 128]); nfo = rng.choice([0, 1, 16, 30, 40, 63, 64, rng.randint(0, nwo)])
+        narrow = rng.random() < 0.3      # (a narrow register: only the low bits of a wide exact result survive)
+        nwo = rng.choice([8, 16, 24, 40]) if narrow else rng.choice([64, 65, 72, 100, 128]); nfo = rng.choice([0, 1, 16, 30, 40, 63, 64, rng.randint(0, nwo)]) if not narrow else rng.choice([0, 0, 1, fxm[2] + fym[2]])
         def code(fm):
             lo, hi = S.fmt_bounds(fm[0], fm[1]); return rng.choice([lo, hi, hi - 1, lo + 1, rng.randint(lo, hi), rng.randint(lo, hi)])
         cases.append({'x': fxm, 'cx': code(fxm), 'y': fym, 'cy': code(fym), 'op': rng.choice(['+', '-', '*', '*']), 'out': [fxm[0] or fym[0] or rng.random() < 0.7, nwo, nfo],   # (a signed result into an unsigned out is a documented error)
-                      'r': rng.choice(RMODES), 'route': rng.choice(['out', 'op_out'])})
+                      'r': rng.choice(RMODES), 'route': rng.choice(['out', 'op_out']), 'build': rng.choice(['scalar', 'scalar', 'indexed', 'array'])})
     return cases
 
 def run_outreg(cases, res):
@@ -208,6 +209,10 @@ def run_outreg(cases, res):
     for c in cases:
         try:
             x = fx.Fxp(c['cx'], *c['x'], raw=True); y = fx.Fxp(c['cy'], *c['y'], raw=True)
+            if c.get('build') == 'indexed':       # operands that are elements of arrays (their raw value is a NumPy scalar)
+                x = fx.Fxp([0, c['cx']], *c['x'], raw=True)[1]; y = fx.Fxp([c['cy'], 0], *c['y'], raw=True)[0]
+            elif c.get('build') == 'array':
+                x = fx.Fxp([c['cx']], *c['x'], raw=True); y = fx.Fxp([c['cy']], *c['y'], raw=True)
             out = fx.Fxp(None, *c['out'], overflow='wrap', rounding=c['r'])
             if c['route'] == 'out':
                 z = {'+': fx.add, '-': fx.sub, '*': fx.mul}[c['op']](x, y, out=out)
